@@ -33,6 +33,10 @@ Proof. reflexivity. Qed.
 Lemma batch_flag_is_cud_is_new_for_every_kind : c05_store_put_kinds = [].
 Proof. reflexivity. Qed.
 
+(* newUpdateRec resets the isNew flag it copied from the record object it was given (repair afe41998e of finding F-A) *)
+Lemma update_rows_are_never_new : c05_update_inherits_isnew = false.
+Proof. reflexivity. Qed.
+
 Section C05.
 Context {V : Type}.
 Notation store := (store V).
@@ -138,6 +142,16 @@ Proof.
       reapply_records_overwrites reapply_wlog_overwrites k trust now st items E).
 Qed.
 
+(* ... which the code now does (side condition update_rows_are_never_new): the update clause of the statement, in full *)
+Theorem updates_always_succeed :
+  forall k trust now (st : store) (items : list item),
+  k = KApply \/ k = KReapplyRecs -> trust <= 2 ->
+  loads_ok now st items = true -> NoDup (map key items) ->
+  (forall it, In it items -> it_new it = false) ->
+  snd (run_recs (rec_code k trust) now st items) = ROk /\
+  forall it, In it items -> get now (fst (run_recs (rec_code k trust) now st items)) (it_pk it) (it_cc it) = Some (it_val it).
+Proof. exact (updates_always_succeed_when_flag_reset update_rows_are_never_new). Qed.
+
 (* Levels 1 and 2 and re-apply at every level write the batch with one PutBatch: existing
    records ARE overwritten (the reading of the statement taken from isequencer/consts.go:
    "1: no trust to log writes, trust to records"). *)
@@ -168,6 +182,12 @@ Proof.
     link_full_proved inserted_rows_never_expire batch_flag_is_cud_is_new_for_every_kind stamp veqb veqb_eq plog_guarded_at_levels_0_1 wlog_guarded_at_levels_0_1
       new_records_guarded_at_level_0 reapply_records_overwrites reapply_wlog_overwrites).
 Qed.
+
+Theorem agrees_implies_satisfies_full :
+  forall (stamp : V -> N) (veqb : V -> V -> bool), (forall a b, veqb a b = true <-> a = b) ->
+  forall t : gtrace V,
+  gagrees stamp veqb t = true -> gsatisfies stamp veqb t = true.
+Proof. exact (fun stamp veqb E t => agrees_implies_satisfies stamp veqb E t (or_introl update_rows_are_never_new)). Qed.
 
 End C05.
 
@@ -256,6 +276,8 @@ Print Assumptions existing_entry_intact.
 Print Assumptions updates_and_fresh_creates_succeed.
 Print Assumptions updates_always_succeed_partial.
 Print Assumptions updates_always_succeed_when_flag_reset.
+Print Assumptions updates_always_succeed.
+Print Assumptions agrees_implies_satisfies_full.
 Print Assumptions updates_succeed_full_refuted.
 Print Assumptions apply_unguarded_overwrites.
 Print Assumptions apply_frame.
